@@ -2,6 +2,7 @@
 C11 — Index files are derived data: always consistent, always rebuildable.
 -/
 import Klev.Proofs.Reach
+import Klev.Proofs.Witness
 namespace Klev.C11
 
 /-- In every state reached by any history, every index — the file of **every** segment, not
@@ -27,6 +28,30 @@ theorem rebuilt_index_exact (p : Params) (v : Ver) (recs : List Msg) : ItemsFor 
   Klev.derive_itemsFor p v recs
 
 end Klev.C11
+
+/-! ### Non-vacuity: the theorems at the witness log `Witness.wL` (four segments, bases 0 2 5 8;
+`Klev/Proofs/Witness.lean`) -/
+section NonVacuity
+open Klev Klev.Witness
+
+example := Klev.C11.index_files_name_records l0 l0_inv ops
+example := Klev.C11.index_files_name_records wL wL_inv [.reopen [0, 5] none false oo, .get 6, .delete [5]]
+-- all four index files removed, reopened read-write and read-only
+example := Klev.C11.reopen_without_index wL wL_inv [0, 2, 5, 8] oo
+example := Klev.C11.reopen_without_index wL wL_inv [0, 2, 5, 8] ooRO
+
+-- evaluated: after the removal only the head has an index file again (the writer creates it);
+-- the lookups answer as before and rebuild the files they use
+example : (stepOp wL (.reopen [0, 2, 5, 8] none false oo)).segs.map (·.idxf.isSome) = [false, false, false, true] ∧
+    ((stepOp wL (.reopen [0, 2, 5, 8] none false oo)).get 4).2 = (wL.get 4).2 ∧
+    ((stepOp wL (.reopen [0, 2, 5, 8] none false oo)).getByKey [1]).2 = (wL.getByKey [1]).2 ∧
+    ((stepOp wL (.reopen [0, 2, 5, 8] none false oo)).getByTime 20).2 = (wL.getByTime 20).2 ∧
+    ((stepOp wL (.reopen [0, 2, 5, 8] none false oo)).getByTime 20).1.segs.map (·.idxf.isSome) =
+      [true, true, true, true] := by decide
+example : (stepOp wL (.reopen [0, 2, 5, 8] none false ooRO)).opts.readonly = true ∧
+    ((stepOp wL (.reopen [0, 2, 5, 8] none false ooRO)).consume 2 3).2 = (wL.consume 2 3).2 := by decide
+
+end NonVacuity
 
 #print axioms Klev.C11.index_files_name_records
 #print axioms Klev.C11.reopen_without_index
